@@ -242,6 +242,20 @@ func C14(c *core.Ctx) {
 	if !core.Thorough(c) {
 		rg := rand.New(rand.NewSource(c.Seed))
 		rg.Shuffle(len(scs), func(a, b int) { scs[a], scs[b] = scs[b], scs[a] })
+		// stratified: one scenario of every (content, position, command) with the plain graph and no
+		// fault in the flags is always in the sample
+		seen := map[string]bool{}
+		var first, rest []cmdScenario
+		for _, s := range scs {
+			k := s.Sc.Content + "|" + s.Sc.Where + "|" + s.Sc.Cmd
+			if s.Sc.Graph == "single" && s.Sc.Flags == "none" && !seen[k] {
+				seen[k] = true
+				first = append(first, s)
+			} else {
+				rest = append(rest, s)
+			}
+		}
+		scs = append(first, rest...)
 		scs = scs[:700]
 	}
 	bin := c.Knut("")
